@@ -91,7 +91,10 @@ class Protocol(Component):
         # FIXME: the encoding of values is hardcoded to UTF-8.
         # at least protect against DoS attempts causing UnicodeDecodeError
 
-        if '"value":' in packet:  # FIXME: this can also be part of a call-value
+        # An event carries a name, a result does not. (Looking for the text
+        # '"value":' misroutes events that have such a keyword argument.)
+        document = json.loads(packet)
+        if isinstance(document, dict) and 'name' not in document:
             self.__process_packet_value(packet)
 
         else:
